@@ -421,18 +421,61 @@ def positional_binding(ctx, rid, core):
             if ins:
                 sc = scope.sites(aa["body"], lambda n: n is ins[0], env)
                 val = S.norm(ins[0]["args"][1], sc[0][1]) if sc else None
+            GET = ("call", "get", ("args",), ("idx",))
+            NULL = ("path", CORE + "values::Value::Null")
+            # the insert itself is unconditional within the arm (an `if let Some(..) = args.get(idx..)` around it leaves the parameter unbound)
+            cond_insert = bool(ins) and any(H.kind(x) in ("If", "Match") and any(y is ins[0] for y in H.walk(x)) and x is not mm for x in H.walk(aa["body"]))
+
+            def none_arm(v):
+                """what a `match args.get(idx) { Some(a) => a, None => X }` answers for a missing argument: the X, or None"""
+                if isinstance(v, tuple) and v and v[0] == "match" and v[1] == GET:
+                    for pat_, body_ in v[2]:
+                        if pat_ == ("None",):
+                            return body_
+                return None
             if cls == "Required":
-                ok = val is not None and val[0] == "try" and S.contains(val, ("call", "get", ("args",), ("idx",))) and not S.contains_head(val, "index")
-                d = "value = %s (missing argument is an error, never an out-of-range index)" % (S.show(val)[:120] if val else None)
+                na = none_arm(val) if val is not None else None
+                if val is None:
+                    ok = None
+                elif S.contains_head(val, "index"):
+                    ok = False   # args[idx]: a missing argument panics
+                elif val[0] == "try" and S.contains(val, GET):
+                    ok = True
+                elif na is not None:
+                    ok = False if na == NULL else (True if (na[0] in ("ret", "unit") or S.contains(na, "Err")) else None)
+                elif S.contains_call(val, "unwrap_or") or S.contains_call(val, "unwrap_or_default"):
+                    ok = False   # a missing required argument is silently defaulted
+                else:
+                    ok = None
+                d = "value = %s (missing argument is an error, never an out-of-range index or a default)" % (S.show(val)[:120] if val else None)
             elif cls == "Optional":
-                ok = val == ("call", "unwrap_or", ("call", "get", ("args",), ("idx",)), ("path", CORE + "values::Value::Null"))
-                d = "value = %s" % (S.show(val) if val else None)
+                na = none_arm(val) if val is not None else None
+                if val is None:
+                    ok = None
+                elif val == ("call", "unwrap_or", GET, NULL) or na == NULL:
+                    ok = True
+                elif S.contains_head(val, "index") or val[0] == "try" or (na is not None and na != NULL):
+                    ok = False   # an omitted optional argument is an error / a panic / something other than null
+                elif S.contains_call(val, "unwrap_or") and not S.contains(val, NULL):
+                    ok = False
+                else:
+                    ok = None
+                d = "value = %s (an omitted optional argument is null)" % (S.show(val)[:120] if val else None)
             elif cls == "Rest":
-                ok = val is not None and S.contains(val, ("call", "collect", ("call", "skip", ("args",), ("idx",)))) and S.contains_call(val, "insert_list")
-                d = "value = %s (the remaining arguments as a list)" % (S.show(val)[:140] if val else None)
+                if val is None:
+                    ok = None
+                elif cond_insert:
+                    ok = False
+                elif S.contains(val, ("call", "collect", ("call", "skip", ("args",), ("idx",)))) and S.contains_call(val, "insert_list"):
+                    ok = True
+                else:
+                    ok = None
+                d = "value = %s (the remaining arguments as a list, bound on every call%s)" % (S.show(val)[:140] if val else None, "" if not cond_insert else " - here the insert is conditional")
             else:
                 ok, d = None, "unknown parameter class"
-            ctx.inst(rid, "bind[%s]" % cls, ok and enum_ok, d, H.loc(aa["body"]))
+            if cls in ("Required", "Optional") and cond_insert and ok is not False:
+                ok = None
+            ctx.inst(rid, "bind[%s]" % cls, ok if (ok is not True or enum_ok) else None, d, H.loc(aa["body"]))
 
 
 def call_arguments_in_order(ctx, rid, core):
@@ -484,8 +527,19 @@ def run(ctx):
     fc = M.Fn(core.mir_fn(FCALL), FCALL)
     calls = fc.calls_to(EVAL)
     for b in calls:
-        roots = fc.trace(fc.term(b)["args"][2])
+        roots0 = fc.trace(fc.term(b)["args"][2])
+        roots = roots0
         ok = bool(roots) and all(r[0] == "call" and r[1] == ENV + "extend_with" for r in roots)
+        if not ok:
+            # built by a private helper (`body_environment(scope, bindings, locals)`): judged by what the helper returns; the layering
+            # inside the helper is then not followed further (no verdict on parent / captured scope below)
+            followed = M.follow_returns(M.CallGraph([core]), roots0, keep=lambda c_: c_.startswith(ENV))
+            if followed and all(r[0] == "call" and r[1] == ENV + "extend_with" for r in followed):
+                ok = None
+            elif any(r[0] == "param" or (r[0] == "call" and r[1] in (ENV + "new", ENV + "extend", ENV + "extend_shared")) for r in followed):
+                ok = False
+            else:
+                ok = None
         ctx.inst("C04.R2", "body-env", ok, "body environment: %s" % [r[:2] for r in roots], fc.loc(b))
         for r in roots:
             if r[0] == "call" and r[1] == ENV + "extend_with":
@@ -573,7 +627,53 @@ def run(ctx):
     REQ = ("call", "count", ("call", "filter", ARGSF, ("closure", ("call", "is_required", ("cp", 0)))))
     wantg = ("if", ("call", "any", ARGSF, ("closure", ("call", "is_rest", ("cp", 0)))), ("ctor", "AtLeast", REQ),
              ("if", ("bin", "Eq", REQ, ("call", "len", ARGSF)), ("ctor", "Exact", REQ), ("ctor", "Between", REQ, ("call", "len", ARGSF))))
-    ctx.inst("C04.R3", "get_arity", S.verdict(t, wantg), "classification: %s" % S.show(t)[:300], H.loc(hga["body"]))
+    vga = S.verdict(t, wantg)
+    if vga is not True:
+        # any other spelling of the same decision (a match on the pair of tests, early returns): evaluate it for the three cases
+        HAS_REST = ("call", "any", ARGSF, ("closure", ("call", "is_rest", ("cp", 0))))
+        ALL_REQ = ("bin", "Eq", REQ, ("call", "len", ARGSF))
+        ALL_REQ2 = ("bin", "Eq", ("call", "len", ARGSF), REQ)
+
+        def decide(term, assign, depth=0):
+            if depth > 12 or not isinstance(term, tuple) or not term:
+                return term
+            if term in assign:
+                return ("lit", "true") if assign[term] else ("lit", "false")
+            if term[0] == "un" and term[1] == "Not":
+                v_ = decide(term[2], assign, depth + 1)
+                return ("lit", "false") if v_ == ("lit", "true") else (("lit", "true") if v_ == ("lit", "false") else term)
+            if term[0] == "if":
+                c_ = decide(term[1], assign, depth + 1)
+                if c_ == ("lit", "true"):
+                    return decide(term[2], assign, depth + 1)
+                if c_ == ("lit", "false") and len(term) > 3:
+                    return decide(term[3], assign, depth + 1)
+                return ("?", "if")
+            if term[0] == "match":
+                sc = decide(term[1], assign, depth + 1)
+                if sc[0] == "tup":
+                    sc = ("tup",) + tuple(decide(x_, assign, depth + 1) for x_ in sc[1:])
+                for pat_, body_ in term[2]:
+                    def m_(p_, v_):
+                        if p_ == ("_",):
+                            return True
+                        if p_[0] == "tup" and v_[0] == "tup" and len(p_) == len(v_):
+                            return all(m_(a_, b_) for a_, b_ in zip(p_[1:], v_[1:]))
+                        return p_ == v_
+                    if m_(pat_, sc):
+                        return decide(body_, assign, depth + 1)
+                return ("?", "match")
+            return term
+        cases = [({HAS_REST: True, ALL_REQ: True, ALL_REQ2: True}, ("ctor", "AtLeast", REQ)), ({HAS_REST: True, ALL_REQ: False, ALL_REQ2: False}, ("ctor", "AtLeast", REQ)),
+                 ({HAS_REST: False, ALL_REQ: True, ALL_REQ2: True}, ("ctor", "Exact", REQ)), ({HAS_REST: False, ALL_REQ: False, ALL_REQ2: False}, ("ctor", "Between", REQ, ("call", "len", ARGSF)))]
+        got_ = [decide(t, a_) for a_, _w in cases]
+        if all(g_ == w_ for g_, (_a, w_) in zip(got_, cases)):
+            vga = True
+        elif any(isinstance(g_, tuple) and g_ and g_[0] == "ctor" and g_[1] in ("AtLeast", "Exact", "Between") and g_ != w_ for g_, (_a, w_) in zip(got_, cases)):
+            vga = False   # a decided case answers with another class or another bound
+        else:
+            vga = None
+    ctx.inst("C04.R3", "get_arity", vga, "classification: %s" % S.show(t)[:300], H.loc(hga["body"]))
     positional_binding(ctx, "C04.R3", core)
     call_arguments_in_order(ctx, "C04.R3", core)
     # arity is checked before anything is bound or evaluated
